@@ -168,7 +168,7 @@ def run_c03(prop, cfg, tier, seed):
     fviol = list(fviol) + cviol
     fcov.update(ccov)
     return generic(prop, cfg, tier, seed,
-                   [("pvfront", 1500, 40000, ["-k", "3"], {"classdash": "D3", "multilineeos": "D20", "slashslashbrace": "D21", "reserved": "F1", "quotebyte": "F2"})],
+                   [("pvfront", 1500, 40000, ["-k", "3"], {"multilineeos": "D20", "slashslashbrace": "D21", "reserved": "F1", "quotebyte": "F2"})],
                    extra_viol=fviol, extra_cov=fcov)
 
 
